@@ -26,13 +26,20 @@ CACHE_DIR = os.path.join(common.ROOT, '.cache')
 
 
 def tree_hash():
+    """Hash of every source the slot verification depends on: the skoolkit modules
+    actually imported when the four simulator configurations are built, plus
+    the verifier's own sources."""
+    import importlib
+    for m in ('skoolkit.simulator', 'skoolkit.cmiosimulator', 'skoolkit.simtables', 'skoolkit.simutils', 'skoolkit.pagingtracer'):
+        importlib.import_module(m)
     h = hashlib.sha256()
-    files = sorted(glob.glob(os.path.join(REPO, 'skoolkit', '*.py')))
+    files = sorted({getattr(m, '__file__', None) for n, m in list(sys.modules.items())
+                    if (n == 'skoolkit' or n.startswith('skoolkit.')) and getattr(m, '__file__', None)})
     for d in ('pyvc', 'contracts'):
         files += sorted(glob.glob(os.path.join(common.ROOT, d, '*.py')))
     files += [os.path.join(common.ROOT, 'props', 'simvc.py'), os.path.join(common.ROOT, 'props', 'simrun.py')]
     for f in files:
-        h.update(f.encode())
+        h.update(os.path.basename(f).encode())
         with open(f, 'rb') as fh:
             h.update(fh.read())
     h.update(repr((os.environ.get('PYVC_Z3_TIMEOUT_MS'), os.environ.get('PYVC_FORCE_SOLVER'))).encode())
